@@ -143,8 +143,9 @@ where
     /// Returns an error if the length of the data size doesn't match the
     /// expected size based on the given image dimensions and the color depth.
     pub const fn new(data: &'a [u8], size: Size) -> Result<Self, ImageRawError> {
-        let expected_size =
-            bytes_per_row(size.width, C::Raw::BITS_PER_PIXEL) * size.height as usize;
+        // A size that doesn't fit into `usize` can't be matched by any slice.
+        let expected_size = bytes_per_row(size.width, C::Raw::BITS_PER_PIXEL)
+            .saturating_mul(size.height as usize);
 
         if data.len() != expected_size {
             return Err(ImageRawError::InvalidDataSize {
